@@ -5,9 +5,10 @@ described in harness/props/synclib.py.
 Run:  lake env lean --run TraitsVerif/Driver/Sync.lean
 -/
 import TraitsVerif.Driver.Proto
-import TraitsVerif.Model.Sync
+import TraitsVerif.Model.SyncLive
 namespace TraitsVerif.Driver.Sync
-open TraitsVerif TraitsVerif.Py TraitsVerif.Model TraitsVerif.Model.Sync TraitsVerif.Proto
+open TraitsVerif TraitsVerif.Py TraitsVerif.Model TraitsVerif.Model.Sync TraitsVerif.Model.PyLSync
+  TraitsVerif.Model.SyncLive TraitsVerif.Proto
 
 /-- Harness values: an int, or the str of an int. -/
 inductive DV where
@@ -151,6 +152,8 @@ def parseVal (s : String) : Option (AVal DV) :=
 inductive DCmd where
   | cmd (objs : List Nat) (c : Cmd DV)
   | kill (o : Nat)
+  /-- `kd o n v`: when trait `n` of object `o` is notified, drop the last reference to object `v` -/
+  | arm (p : Pair) (o : Nat)
 
 def parseCmd (s : String) : Option DCmd :=
   match words s with
@@ -167,6 +170,7 @@ def parseCmd (s : String) : Option DCmd :=
     let o ← o.toNat?; let o2 ← o2.toNat?
     pure (.cmd [o, o2] (.unlink (o, n) (o2, n2) (m = "1")))
   | ["ki", o] => do pure (.kill (← o.toNat?))
+  | ["kd", o, n, v] => do pure (.arm ((← o.toNat?), n) (← v.toNat?))
   | _ => none
 
 def digit (n : Nat) : String := toString (min n 9)
@@ -181,27 +185,33 @@ def showObj (specs : List (List Decl)) (w : World DV) (dead : List Nat) (o : Nat
     ",".intercalate (ds.map (fun d => s!"{d.name}={showAVal (w.val (o, d.name))}")) ++
     s!",c={c},k={if lk.isEmpty then "-" else "+".intercalate lk}"
 
-def showRes (r : Res DV) : String :=
+def showRes (r : ResK DV) : String :=
   match r.exc, r.ret with
   | some e, _ => s!"err:{e.name}"
   | none, some x => s!"ok={showDV x}"
   | none, none => "ok"
 
-def runCmds (E : Sync.Env DV) (specs : List (List Decl)) (n : Nat) : World DV → List Nat → List DCmd → List String
-  | _, _, [] => []
-  | w, dead, c :: cs =>
-    let w0 : World DV := { w with nChg := fun _ => 0, nItems := fun _ => 0 }
+def showAll (specs : List (List Decl)) (n : Nat) (k : KWorld DV) : String :=
+  " ".intercalate ((List.range n).map (showObj specs k.w k.dead))
+
+def runCmds (E : Sync.Env DV) (specs : List (List Decl)) (n : Nat) : KWorld DV → List DCmd → List String
+  | _, [] => []
+  | k, c :: cs =>
+    let k0 : KWorld DV := { k with w := { k.w with nChg := fun _ => 0, nItems := fun _ => 0 }, swallowed := 0 }
     match c with
     | .kill o =>
-      let w' := if o ∈ dead then w0 else w0.kill o
-      let dead' := if o ∈ dead then dead else o :: dead
-      s!"ok r0 {" ".intercalate ((List.range n).map (showObj specs w' dead'))}" :: runCmds E specs n w' dead' cs
-    | .cmd objs c =>
-      if objs.any (fun o => o ∈ dead || o ≥ n) then "skip" :: runCmds E specs n w dead cs
+      let k' := (stepK E k0 (.cmd (.kill o))).world
+      s!"ok r0 {showAll specs n k'}" :: runCmds E specs n k' cs
+    | .arm p o =>
+      if p.1 ∈ k.dead || p.1 ≥ n then "skip" :: runCmds E specs n k cs
       else
-        let r := w0.step E c
-        s!"{showRes r} r0 {" ".intercalate ((List.range n).map (showObj specs r.world dead))}"
-          :: runCmds E specs n r.world dead cs
+        let k' := (stepK E k0 (.arm p o)).world
+        s!"ok r0 {showAll specs n k'}" :: runCmds E specs n k' cs
+    | .cmd objs c =>
+      if objs.any (fun o => o ∈ k.dead || o ≥ n) then "skip" :: runCmds E specs n k cs
+      else
+        let r := stepK E k0 (.cmd c)
+        s!"{showRes r} r{min r.world.swallowed 9} {showAll specs n r.world}" :: runCmds E specs n r.world cs
 
 def handle (line : String) : String :=
   match (clean line).splitOn "|" with
@@ -211,7 +221,7 @@ def handle (line : String) : String :=
       let specs := (fields specs ",").map parseObj
       match (fields cmds ";").mapM parseCmd with
       | none => "bad-case"
-      | some cs => " ; ".intercalate (runCmds (mkEnv specs) specs specs.length (initWorld specs) [] cs)
+      | some cs => " ; ".intercalate (runCmds (mkEnv specs) specs specs.length { w := initWorld specs } cs)
   | _ => "bad-case"
 
 end TraitsVerif.Driver.Sync
